@@ -100,6 +100,27 @@ def shapes(chk, prog, rule='R4'):
         chk.check(got == (op, val), rule, f.name, '%s() is "std::find( begin, end, %s) %s end" like the reference bit '
                   'vector' % (short, str(val).lower(), op), f.loc(), 'found: find( ..., %s) %s end' % (
                       str(got[1]).lower(), got[0]))
+    # equality: the comparison of the two bit vectors (std::vector<bool>::operator==: same size, same bits)
+    eqs = [f for f in prog.functions if f.classq == CLS and f.short == 'operator==' and len(f.params) == 1]
+    for f in eqs:
+        rets = [x for x in f.walk() if x.get('k') == 'ReturnStmt']
+        ok = None
+        if len(rets) == 1 and children(rets[0]):
+            e = unwrap(children(rets[0])[0])
+            if e.get('k') == 'CXXOperatorCallExpr' and (e.get('callee') or '').endswith('operator=='):
+                ops = children(e)[1:]
+                names = []
+                for o in ops:
+                    o = strip_all_casts(o)
+                    if o.get('k') == 'MemberExpr' and o.get('ref', {}).get('name') == 'mData':
+                        b = strip_all_casts(children(o)[0]) if children(o) else {}
+                        names.append('this' if b.get('k') == 'CXXThisExpr' else b.get('ref', {}).get('name'))
+                ok = len(names) == 2 and 'this' in names and f.params[0]['name'] in names
+        if ok is None:
+            chk.notes.append('DynamicBitset::operator==: form not recognised - undecided')
+        else:
+            n += 1
+            chk.check(ok, rule, f.name, 'operator== compares the complete bit vectors of both operands', f.loc())
     fs = [f for f in prog.functions if f.classq == CLS and f.short == 'count' and not f.params]
     chk.require(len(fs) == 1, 'DynamicBitset::count() not found')
     f = fs[0]
